@@ -80,8 +80,9 @@ fn within(r: Range, lo: usize, hi: usize) -> bool {
 pub(crate) fn attr_outline_ok(a: &AttributeOutline, lo: usize, hi: usize) -> bool {
     // name ⊆ raw_range ⊆ [lo, hi]; raw_range starts at the name; the value is either the
     // default empty range (valueless attribute) or lies after the name inside raw_range
+    // an attribute name is never empty: it starts with the character that opened the attribute
     lo <= a.name.start
-        && a.name.start <= a.name.end
+        && a.name.start < a.name.end
         && a.name.end <= a.raw_range.end
         && a.raw_range.end <= hi
         && a.raw_range.start == a.name.start
@@ -271,8 +272,9 @@ pub(crate) fn inv(l: &Lexer<StepSink>, req: u16, k: usize, dist: isize, n: usize
                                     if !attr_outline_ok(a, prev, np) {
                                         return false;
                                     }
-                                } else if !(prev <= l.token_part_start) {
-                                    // attribute name in progress starts after everything finished so far
+                                } else if !(prev <= l.token_part_start && l.token_part_start < np) {
+                                    // attribute name in progress: starts after everything finished so far, and its
+                                    // first character (the one that opened the attribute) is already consumed
                                     return false;
                                 }
                             }
